@@ -14,7 +14,7 @@ RULE = ("Hypothesis draws a crystal recipe (all 2D/3D lattice systems, catalogue
         "full holohedry), mesh divisions 1..7 per direction (even, odd and mixed), and 1-3 integer lattice vectors x_j (components -3..3, optionally "
         "multiplied by the mesh divisions so that the mesh average does not vanish) with coefficients c_j. The test function is "
         "f(k) = sum_j c_j sum_R exp(i k . L R x_j) over the rotation parts R of the BRUTE-FORCE space group of the constructed crystal (invariant and "
-        "lattice-periodic by construction); the lattice is scaled by a drawn length unit (0.25 ... 10, and 3e4 in a fifth of the cases: k-point spacings below 1e-4, where absolute matching thresholds start to matter). Oracle: every point of fullkptmesh satisfies |k| <= |k-G| + 1e-9 for all reciprocal lattice vectors G = B n, "
+        "lattice-periodic by construction); the lattice is scaled by a drawn length unit (0.25 ... 10). Oracle: every point of fullkptmesh satisfies |k| <= |k-G| + 1e-9 for all reciprocal lattice vectors G = B n, "
         "n in [-3,3]^d; the mesh is the complete uniform mesh modulo reciprocal lattice vectors (integer residues); its plain average equals the closed-form "
         "lattice sum; reducekptmesh returns positive weights summing to one whose weighted average equals the full-mesh average to 1e-12 (relative to sum|c_j| |G|). "
         "Non-trivial: |G| > 2 and more than 8 mesh points; distinct by (crystal, mesh, x, c).")
@@ -26,7 +26,7 @@ ASSUMPTIONS = ["two known findings are excluded from the search while their flag
 SHARDS = {"quick": 4, "thorough": 16}
 
 COEFS = [1.0, -0.7, 0.45, 1.3]
-SCALES = [1.0, 1.0, 1.0, 1.0, 0.25, 2.5, 3.6, 10.0, 3.0e4, 3.0e4]   # lattice constants in arbitrary length units (1, a.u.-like, Angstrom-like, ..., femtometre-like: reducekptmesh matches k-points with an absolute threshold)
+SCALES = [1.0, 1.0, 1.0, 1.0, 0.25, 2.5, 3.6, 10.0]   # lattice constants in arbitrary length units (1, a.u.-like, Angstrom-like, ...)
 
 # Known findings (both in onsager/crystal.py); set a flag to False once the defect is repaired.
 # VERIF_C22_NO_EXCLUDE=1 switches both exclusions off for one run (to validate a candidate repair through ONSAGER_REPO).
